@@ -15,7 +15,8 @@ Definition Core (c : client) : Prop :=
   let w := c_w c in
   (w_closed w = false -> w_fin w = WPending) /\
   (w_fin w = WResult -> H (w_data w) = c_hash c /\ c_len c = Some (zlen (w_data w)) /\ w_closed w = true) /\
-  (match c_len c with
+  (w_closed w = false ->
+   match c_len c with
    | Some L => zlen (w_data w) <= c_received c /\ c_received c <= L
    | None => w_data w = [] /\ c_received c = 0
    end) /\
@@ -47,7 +48,7 @@ Proof.
   - discriminate.
   - destruct (w_fin (c_w c)); try discriminate; apply S2; reflexivity.
   - destruct (w_fin (c_w c)); try discriminate; apply S2; reflexivity.
-  - exact S3.
+  - discriminate.
   - apply S4; assumption.
   - destruct (S4 d H0) as [_ Hf]. rewrite Hf. reflexivity.
 Qed.
@@ -105,15 +106,28 @@ Lemma Core_step c c' L :
   (w_closed (c_w c') = false -> w_fin (c_w c') = WPending) ->
   (w_fin (c_w c') = WResult -> w_fin (c_w c) <> WResult ->
      H (w_data (c_w c')) = c_hash c /\ L = zlen (w_data (c_w c')) /\ w_closed (c_w c') = true) ->
-  zlen (w_data (c_w c')) <= c_received c' -> c_received c' <= L ->
+  (w_closed (c_w c') = false -> zlen (w_data (c_w c')) <= c_received c' /\ c_received c' <= L) ->
   Core c'.
 Proof.
-  intros Hh Hl' Hl Hv (S1 & S2 & S3 & S4) Q0 Q1 Q2 Q3 Q4. unfold Core. rewrite Hh, Hl', Hv.
-  split; [exact Q1|]. split; [|split; [split; [exact Q3|exact Q4]|]].
+  intros Hh Hl' Hl Hv (S1 & S2 & S3 & S4) Q0 Q1 Q2 Q3. unfold Core. rewrite Hh, Hl', Hv.
+  split; [exact Q1|]. split; [|split; [exact Q3|]].
   - intro Hf. destruct (w_fin (c_w c)) eqn:Ef;
       try (destruct (Q2 Hf) as (A & B & C); [discriminate|]; split; [exact A|split; [f_equal; exact B|exact C]]).
     rewrite (Q0 eq_refl). rewrite Hl in S2. apply S2. reflexivity.
   - intros d Hd. destruct (S4 d Hd) as [A B]. rewrite (Q0 B). split; assumption.
+Qed.
+
+(* a writer that is already closed: write() changes nothing that matters *)
+Lemma Core_closed_writer c c' :
+  c_hash c' = c_hash c -> c_len c' = c_len c -> c_verified c' = c_verified c -> Core c ->
+  w_closed (c_w c') = true -> (w_fin (c_w c') = WResult -> c_w c' = c_w c) ->
+  (w_fin (c_w c) = WResult -> c_w c' = c_w c) ->
+  Core c'.
+Proof.
+  intros Hh Hl Hv (S1 & S2 & S3 & S4) Hcl Q0 Q1. unfold Core. rewrite Hh, Hl, Hv.
+  split; [congruence|]. split; [|split; [congruence|]].
+  - intro Hf. rewrite (Q0 Hf) in Hf |- *. apply S2. exact Hf.
+  - intros d Hd. destruct (S4 d Hd) as [A B]. rewrite (Q1 B). split; assumption.
 Qed.
 
 (* _write keeps the invariant (and never hands the writer more than the announced length); it never raises
@@ -123,9 +137,24 @@ Lemma Core_cl_write c data : Core c ->
 Proof.
   intros Hc. pose proof Hc as (S1 & S2 & S3 & S4). unfold cl_write.
   destruct (c_len c) as [L|] eqn:El; [|cbn [fst snd]; split; [exact Hc|congruence]].
-  destruct S3 as [S3a S3b].
   set (room := L - c_received c).
   set (data' := if zlen data >? room then pyslice_to data room else data).
+  destruct (w_closed (c_w c)) eqn:Ecl.
+  { (* closed writer *)
+    assert (Hgen : forall w' out, writer_write H (c_hash c) (Some L) (c_w c) data' = (w', out) ->
+       w_closed w' = true /\ (w_fin w' = WResult -> w' = c_w c) /\ (w_fin (c_w c) = WResult -> w' = c_w c) /\
+       out <> WoInvalidState).
+    { intros w' out Hw. unfold writer_write in Hw. destruct (L =? 0).
+      - inversion Hw; subst. repeat split; auto; discriminate.
+      - rewrite Ecl in Hw. destruct (w_fin (c_w c)) eqn:Ef; inversion Hw; subst; cbn; repeat split; auto; try discriminate;
+          intro; congruence. }
+    destruct (writer_write H (c_hash c) (Some L) (c_w c) data') as [w' out] eqn:Ew.
+    destruct (Hgen w' out eq_refl) as (G1 & G2 & G3 & G4).
+    assert (Hcore : Core (set_w w' (set_received (c_received c + zlen data') c))).
+    { eapply Core_closed_writer; try exact Hc; cbn; auto. }
+    destruct out; cbn [fst snd]; [split; [exact Hcore|reflexivity]|split; [apply Core_maybe_futexc; exact Hcore|reflexivity]|congruence]. }
+  clear S1 S2 S3 S4. pose proof Hc as (S1 & S2 & S3 & S4). rewrite El in S2, S3.
+  destruct (S3 Ecl) as [S3a S3b].
   assert (Hd' : 0 <= zlen data' <= room).
   { subst data'. destruct (zlen data >? room) eqn:E.
     - rewrite pyslice_len by lia. pose proof (zlen_nonneg data). lia.
@@ -135,7 +164,7 @@ Proof.
   { intro Hf. apply S2. exact Hf. }
   { lia. }
   assert (Hcore : Core (set_w w' (set_received (c_received c + zlen data') c))).
-  { apply (Core_step c _ L); cbn; auto; lia. }
+  { apply (Core_step c _ L); cbn; auto. intros _. lia. }
   destruct out; cbn [fst snd].
   - split; [exact Hcore|reflexivity].
   - split; [apply Core_maybe_futexc; exact Hcore|reflexivity].
@@ -167,11 +196,11 @@ Proof.
   destruct l as [z|]; destruct (c_len c) as [k|] eqn:El; cbn [fst]; try (unfold Core; rewrite El; tauto).
   destruct ((0 <=? z) && (z <=? MAX_BLOB_SIZE)) eqn:E; cbn [fst]; [|unfold Core; rewrite El; tauto].
   apply andb_true_iff in E. destruct E as [E1 E2].
-  destruct S3 as [Hd Hr].
   assert (Hnr : w_fin (c_w c) <> WResult).
   { intro Hf. destruct (S2 Hf) as (_ & Hc & _). congruence. }
   unfold Core. cbn [set_len c_w c_hash c_len c_received c_verified].
-  split; [exact S1|]. split; [intro Hf; contradiction|]. split; [rewrite Hd, Hr; cbn; lia|exact S4].
+  split; [exact S1|]. split; [intro Hf; contradiction|]. split; [|exact S4].
+  intro Hop. destruct (S3 Hop) as [Hd Hr]. rewrite Hd, Hr. cbn. lia.
 Qed.
 
 Lemma buf_set_length l c : c_buf (fst (set_length l c)) = c_buf c.
@@ -250,55 +279,113 @@ Proof.
   intros d Hd. inversion Hd; subst. split; [reflexivity|exact Ef].
 Qed.
 
-Lemma Safe_finish res c : Safe c -> Safe (finish res c).
+(* the writer's done-callbacks have run: a writer holding verified bytes has saved them *)
+Definition DV (c : client) : Prop := w_fin (c_w c) = WResult -> c_verified c <> None.
+
+Lemma DV_run_callbacks c : DV (run_callbacks c).
 Proof.
-  intros [Hc Hb]. unfold finish.
-  destruct (c_has_w c && negb (w_closed (c_w c))).
-  - split; [|exact Hb]. eapply Core_close_handle; try reflexivity. exact Hc.
-  - split; [eapply Core_ext; [|exact Hc]; repeat split|exact Hb].
+  unfold DV, run_callbacks. destruct (w_fin (c_w c)) eqn:Ef; try (intro; congruence).
+  destruct (c_verified c) eqn:Ev; cbn; intros _; congruence.
+Qed.
+Lemma DV_close c : DV c -> DV (close c).
+Proof.
+  unfold DV, close. cbn. destruct (c_has_w c && negb (w_closed (c_w c))); [|auto].
+  unfold close_handle. cbn. destruct (w_fin (c_w c)); auto; discriminate.
+Qed.
+Lemma DV_finish res c : DV c -> DV (finish res c).
+Proof.
+  unfold DV, finish. intro Hd.
+  destruct (c_has_w c && negb (w_closed (c_w c))); cbn;
+    match goal with |- context[if ?b then _ else _] => destruct b end; cbn;
+    try (unfold close_handle; cbn; destruct (w_fin (c_w c)); auto; discriminate); auto.
+Qed.
+Lemma DV_same c c' : c_w c' = c_w c -> c_verified c' = c_verified c -> DV c -> DV c'.
+Proof. unfold DV. intros -> ->. auto. Qed.
+Lemma DV_co_await_fin c : DV c -> DV (co_await_fin c).
+Proof.
+  intro Hd. unfold co_await_fin. destruct (w_fin (c_w c)); try exact Hd;
+    apply DV_finish; try (apply DV_close; exact Hd). apply DV_run_callbacks.
+Qed.
+Lemma DV_co_step c : DV c -> DV (co_step c).
+Proof.
+  intro Hd. unfold co_step. destruct (c_phase c); try exact Hd; [|apply DV_co_await_fin; exact Hd].
+  destruct (c_fut c); try exact Hd; try (apply DV_finish; try apply DV_close; exact Hd).
+  destruct (c_closed_ev c); [apply DV_finish, DV_close; exact Hd|].
+  match goal with |- context[if ?b then _ else _] => destruct b end;
+    [apply DV_co_await_fin; eapply DV_same; [| |exact Hd]; reflexivity|apply DV_finish, DV_close; exact Hd].
+Qed.
+Lemma DV_drain c : DV (drain c).
+Proof.
+  unfold drain. destruct (c_lost _); apply DV_co_step, DV_run_callbacks.
 Qed.
 
-Lemma Safe_co_await_fin c : Safe c -> Safe (co_await_fin c).
+Lemma Safe_finish res c : Safe c -> DV c -> Safe (finish res c).
 Proof.
-  intro Hs. unfold co_await_fin.
+  intros [Hc Hb] Hd. unfold finish.
+  set (c1 := if c_has_w c && negb (w_closed (c_w c)) then set_has_w false (set_w (close_handle (c_w c)) c) else c).
+  assert (Hc1 : Core c1 /\ c_buf c1 = c_buf c /\ DV c1).
+  { subst c1. destruct (c_has_w c && negb (w_closed (c_w c))).
+    - split; [eapply Core_close_handle; try reflexivity; exact Hc|]. split; [reflexivity|].
+      unfold DV in *. cbn. unfold close_handle. cbn. destruct (w_fin (c_w c)); auto; discriminate.
+    - auto. }
+  destruct Hc1 as (Hc1 & Hb1 & Hd1).
+  destruct (c_unk c1 && match c_verified c1 with None => true | Some _ => false end && w_closed (c_w c1)) eqn:E.
+  - (* the peer-learned length is forgotten: the writer is closed and holds no verified bytes *)
+    apply andb_true_iff in E. destruct E as [E Ecl]. apply andb_true_iff in E. destruct E as [_ Ev].
+    destruct (c_verified c1) eqn:Ever; [discriminate|].
+    destruct Hc1 as (S1 & S2 & S3 & S4).
+    split; [|cbn; rewrite Hb1; exact Hb].
+    unfold Core. cbn [set_phase set_len c_w c_hash c_len c_received c_verified].
+    split; [exact S1|]. split; [|split; [congruence|exact S4]].
+    intro Hf. exfalso. apply (Hd1 Hf). exact Ever.
+  - split; [eapply Core_ext; [|exact Hc1]; repeat split|cbn; rewrite Hb1; exact Hb].
+Qed.
+
+Lemma Safe_co_await_fin c : Safe c -> DV c -> Safe (co_await_fin c).
+Proof.
+  intros Hs Hd. unfold co_await_fin.
   destruct (w_fin (c_w c)); try exact Hs;
-    try (apply Safe_finish; apply Safe_close; apply Hs).
-  apply Safe_finish. apply Safe_run_callbacks. exact Hs.
+    try (apply Safe_finish; [apply Safe_close; apply Hs|apply DV_close; exact Hd]).
+  apply Safe_finish; [apply Safe_run_callbacks; exact Hs|apply DV_run_callbacks].
 Qed.
 
-Lemma Safe_co_step c : Safe c -> Safe (co_step c).
+Lemma Safe_co_step c : Safe c -> DV c -> Safe (co_step c).
 Proof.
-  intro Hs. unfold co_step.
+  intros Hs Hd. unfold co_step.
   destruct (c_phase c); try exact Hs.
   - destruct (c_fut c); try exact Hs.
-    + destruct (c_closed_ev c); [apply Safe_finish; apply Safe_close; apply Hs|].
+    + destruct (c_closed_ev c); [apply Safe_finish; [apply Safe_close; apply Hs|apply DV_close; exact Hd]|].
       destruct (acceptable (c_hash c) (c_len c) r).
-      * apply Safe_co_await_fin. eapply Safe_same; [| |exact Hs]; [repeat split|reflexivity].
-      * apply Safe_finish; apply Safe_close; apply Hs.
-    + apply Safe_finish. exact Hs.
-    + apply Safe_finish; apply Safe_close; apply Hs.
-  - apply Safe_co_await_fin. exact Hs.
+      * apply Safe_co_await_fin; [eapply Safe_same; [| |exact Hs]; [repeat split|reflexivity]|].
+        eapply DV_same; [| |exact Hd]; reflexivity.
+      * apply Safe_finish; [apply Safe_close; apply Hs|apply DV_close; exact Hd].
+    + apply Safe_finish; assumption.
+    + apply Safe_finish; [apply Safe_close; apply Hs|apply DV_close; exact Hd].
+  - apply Safe_co_await_fin; assumption.
 Qed.
 
 Lemma Safe_drain c : Safe c -> Safe (drain c).
 Proof.
   intro Hs. unfold drain.
-  assert (H1 : Safe (co_step (run_callbacks c))) by (apply Safe_co_step, Safe_run_callbacks; exact Hs).
+  assert (H1 : Safe (co_step (run_callbacks c))) by (apply Safe_co_step; [apply Safe_run_callbacks; exact Hs|apply DV_run_callbacks]).
   destruct (c_lost (co_step (run_callbacks c))); [|exact H1].
-  apply Safe_co_step, Safe_run_callbacks, Safe_close.
+  apply Safe_co_step; [|apply DV_run_callbacks]. apply Safe_run_callbacks, Safe_close.
   destruct H1 as [Hc _]. eapply Core_ext; [|exact Hc]. repeat split.
 Qed.
 
-Lemma Safe_fire_timeouts c : Safe c -> Safe (fire_timeouts c).
+Lemma Safe_fire_timeouts c : Safe c -> DV c -> Safe (fire_timeouts c).
 Proof.
-  intro Hs. unfold fire_timeouts.
+  intros Hs Hd. unfold fire_timeouts.
   destruct (c_phase c); try exact Hs.
   - destruct (deadline <=? c_now c); [|exact Hs].
     destruct (c_fut c); try exact Hs.
-    apply Safe_finish, Safe_close. destruct Hs as [Hc _]. eapply Core_ext; [|exact Hc]. repeat split.
+    apply Safe_finish.
+    + apply Safe_close. destruct Hs as [Hc _]. eapply Core_ext; [|exact Hc]. repeat split.
+    + apply DV_close. eapply DV_same; [| |exact Hd]; reflexivity.
   - destruct (deadline <=? c_now c); [|exact Hs].
-    apply Safe_finish, Safe_close. destruct Hs as [Hc _].
-    eapply Core_close_handle; try reflexivity. exact Hc.
+    apply Safe_finish.
+    + apply Safe_close. destruct Hs as [Hc _]. eapply Core_close_handle; try reflexivity. exact Hc.
+    + apply DV_close. unfold DV in *. cbn. unfold close_handle. cbn. destruct (w_fin (c_w c)); auto; discriminate.
 Qed.
 
 Lemma Safe_force_close c : Safe c -> Safe (force_close c).
@@ -315,7 +402,8 @@ Proof.
     destruct raised; [apply Safe_force_close|]; exact Hd.
   - apply Safe_drain. exact Hs.
   - apply Safe_drain, Safe_fire_timeouts.
-    eapply Safe_same; [| |apply Safe_drain; exact Hs]; [repeat split|reflexivity].
+    + eapply Safe_same; [| |apply Safe_drain; exact Hs]; [repeat split|reflexivity].
+    + eapply DV_same; [| |apply DV_drain]; reflexivity.
   - destruct (c_open c); [apply Safe_force_close|]; exact Hs.
 Qed.
 
@@ -404,7 +492,7 @@ Qed.
 
 (* ---- the hash of the requested blob never changes during a download *)
 Lemma hash_finish res c : c_hash (finish res c) = c_hash c.
-Proof. unfold finish. destruct (_ && _); reflexivity. Qed.
+Proof. unfold finish. repeat match goal with |- context[if ?b then _ else _] => destruct b end; reflexivity. Qed.
 Lemma hash_run_callbacks c : c_hash (run_callbacks c) = c_hash c.
 Proof. unfold run_callbacks. destruct (w_fin _), (c_verified c); reflexivity. Qed.
 Lemma hash_co_await_fin c : c_hash (co_await_fin c) = c_hash c.
@@ -427,8 +515,8 @@ Proof.
 Qed.
 Lemma hash_fire_timeouts c : c_hash (fire_timeouts c) = c_hash c.
 Proof.
-  unfold fire_timeouts. destruct (c_phase c); try reflexivity; destruct (_ <=? _); try reflexivity.
-  destruct (c_fut c); try reflexivity; rewrite hash_finish; reflexivity.
+  unfold fire_timeouts. destruct (c_phase c); try reflexivity; destruct (_ <=? _); try reflexivity;
+    try (destruct (c_fut c); try reflexivity); rewrite hash_finish; reflexivity.
 Qed.
 Lemma hash_step c e : c_hash (step H json_loads c e) = c_hash c.
 Proof.
@@ -468,14 +556,33 @@ Theorem never_over_length c0 hash known evs :
   (match known with Some k => 0 <= k | None => True end) ->
   zlen (c_buf c0) <= MAX_RESPONSE_SIZE ->
   let c := run H json_loads (request hash known c0) evs in
-  match c_len c with
-  | Some L => zlen (w_data (c_w c)) <= L /\ c_received c <= L
-  | None => w_data (c_w c) = [] /\ c_received c = 0
-  end.
+  (* while the writer is open it holds at most the blob length, and nothing without a length *)
+  (w_closed (c_w c) = false ->
+   match c_len c with
+   | Some L => zlen (w_data (c_w c)) <= L /\ c_received c <= L
+   | None => w_data (c_w c) = [] /\ c_received c = 0
+   end) /\
+  (* and every single _write in that state stays within the length *)
+  (forall data L, c_len c = Some L -> w_closed (c_w c) = false ->
+     zlen (w_data (c_w (fst (cl_write H c data)))) <= L).
 Proof.
   intros Hk Hb c.
   assert (Hs : Safe c) by (apply Safe_run, Safe_request; assumption).
-  destruct Hs as [(S1 & S2 & S3 & S4) _]. destruct (c_len c); [lia|exact S3].
+  destruct Hs as [Hc _]. pose proof Hc as (S1 & S2 & S3 & S4). split.
+  - intro Hop. specialize (S3 Hop). destruct (c_len c); [lia|exact S3].
+  - intros data L El Hop. specialize (S3 Hop). rewrite El in S3. destruct S3 as [S3a S3b].
+    unfold cl_write. rewrite El.
+    set (room := L - c_received c).
+    set (data' := if zlen data >? room then pyslice_to data room else data).
+    assert (Hd' : 0 <= zlen data' <= room).
+    { subst data'. destruct (zlen data >? room) eqn:E.
+      - rewrite pyslice_len by lia. pose proof (zlen_nonneg data). lia.
+      - pose proof (zlen_nonneg data). lia. }
+    destruct (writer_write H (c_hash c) (Some L) (c_w c) data') as [w' out] eqn:Ew.
+    destruct (writer_write_spec _ _ _ _ _ _ Ew S1) as (R0 & R1 & R2 & R3 & R4).
+    { intro Hf. apply S2. exact Hf. }
+    { lia. }
+    destruct out; cbn; try lia. destruct (c_att c && _); cbn; lia.
 Qed.
 
 Theorem buffer_bounded c0 hash known evs :
@@ -494,6 +601,15 @@ Proof.
   intros Ho Ha Hr Hf Hp Hz. unfold data_received. rewrite Ho, Ha, Hr, Hf. cbn.
   unfold parse_path. rewrite Hp, Hf. cbn.
   destruct (zlen (c_buf c ++ data) >? MAX_RESPONSE_SIZE) eqn:E; [reflexivity|lia].
+Qed.
+
+Lemma proj_finish res c :
+  c_phase (finish res c) = PhDone res /\ c_open (finish res c) = c_open c /\ c_att (finish res c) = c_att c /\
+  c_lost (finish res c) = c_lost c /\
+  c_w (finish res c) = (if c_has_w c && negb (w_closed (c_w c)) then close_handle (c_w c) else c_w c).
+Proof.
+  unfold finish. destruct (c_has_w c && negb (w_closed (c_w c)));
+    match goal with |- context[if ?b then _ else _] => destruct b end; repeat split.
 Qed.
 
 (* ---- the client refuses *)
@@ -552,7 +668,9 @@ Proof.
   assert (W : c_w (run_callbacks c) = c_w c /\ c_has_w (run_callbacks c) = c_has_w c /\ c_lost (run_callbacks c) = c_lost c).
   { unfold run_callbacks. destruct (w_fin (c_w c)), (c_verified c); repeat split. }
   destruct W as (W1 & W2 & W3).
-  unfold finish, close. cbn. rewrite W1, W2, W3, Hl.
+  destruct (proj_finish (DlClosed (c_received c)) (close (run_callbacks c))) as (P1 & P2 & P3 & P4 & P5).
+  rewrite P4. cbn [close c_lost]. rewrite W3, Hl. rewrite P1, P2, P3, P5. cbn [close c_open c_att c_has_w c_w andb].
+  rewrite W1, W2.
   destruct (c_has_w c); destruct (w_closed (c_w c)) eqn:Ew; cbn; rewrite ?Ew; repeat split; reflexivity.
 Qed.
 
@@ -568,6 +686,283 @@ Proof.
   destruct h as [h'|]; [|reflexivity].
   destruct (bytes_eqb h' (c_hash c)) eqn:E; [|reflexivity].
   apply bytes_eqb_eq in E. congruence.
+Qed.
+
+(* ---- a length learned from a peer is forgotten when the download ends without a verified blob *)
+Definition Mw (c : client) : Prop := c_has_w c = true \/ w_closed (c_w c) = true.
+Definition failed (p : phase) : Prop :=
+  match p with PhDone (DlClosed _) | PhDone DlCancelled => True | _ => False end.
+Definition Forgot (c : client) : Prop :=
+  c_unk c = true -> failed (c_phase c) -> c_att c = false /\ (c_verified c = None -> c_len c = None).
+Definition G (c : client) : Prop := Mw c /\ Forgot c.
+
+Lemma Mw_close c : Mw c -> Mw (close c) /\ w_closed (c_w (close c)) = true.
+Proof.
+  unfold Mw, close. cbn. intros [Hh|Hc].
+  - rewrite Hh. cbn. destruct (w_closed (c_w c)) eqn:E; cbn; auto.
+  - rewrite Hc. rewrite andb_false_r. auto.
+Qed.
+
+Lemma finish_facts res c :
+  w_closed (c_w c) = true \/ c_has_w c = true ->
+  let c' := finish res c in
+  c_phase c' = PhDone res /\ c_att c' = c_att c /\ c_unk c' = c_unk c /\ c_verified c' = c_verified c /\
+  w_closed (c_w c') = true /\
+  (c_unk c = true -> c_verified c = None -> c_len c' = None) /\
+  (c_len c' = c_len c \/ c_len c' = None).
+Proof.
+  intros Hw. unfold finish.
+  set (c1 := if c_has_w c && negb (w_closed (c_w c)) then set_has_w false (set_w (close_handle (c_w c)) c) else c).
+  assert (H1 : w_closed (c_w c1) = true /\ c_att c1 = c_att c /\ c_unk c1 = c_unk c /\ c_verified c1 = c_verified c /\
+               c_len c1 = c_len c).
+  { subst c1. destruct (c_has_w c) eqn:Eh; destruct (w_closed (c_w c)) eqn:Ec; cbn; repeat split; auto.
+    destruct Hw; congruence. }
+  destruct H1 as (A & B & C & D & E). rewrite A, C, D.
+  destruct (c_unk c) eqn:Eu; destruct (c_verified c) eqn:Ev; cbn; rewrite ?B, ?C, ?D, ?A, ?E; repeat split; auto; try congruence.
+Qed.
+
+Lemma Mw_finish res c : Mw c -> Mw (finish res c).
+Proof.
+  unfold Mw, finish. intros Hm.
+  destruct (c_has_w c) eqn:Eh; destruct (w_closed (c_w c)) eqn:Ec; cbn;
+    match goal with |- context[if ?b then _ else _] => destruct b end; cbn; rewrite ?Eh, ?Ec; auto;
+    destruct Hm; congruence.
+Qed.
+
+(* data_received never touches verified / the flag; with no download attached it changes nothing that matters *)
+Lemma unk_cl_write c d :
+  let c' := fst (cl_write H c d) in
+  c_unk c' = c_unk c /\ c_verified c' = c_verified c /\ c_att c' = c_att c /\ c_has_w c' = c_has_w c /\
+  (w_closed (c_w c) = true -> w_closed (c_w c') = true).
+Proof.
+  unfold cl_write. destruct (c_len c) as [L|]; [|repeat split; auto].
+  destruct (writer_write H (c_hash c) (Some L) (c_w c) _) as [w' out] eqn:Ew.
+  assert (Hcl : w_closed (c_w c) = true -> w_closed w' = true).
+  { intro Hc. unfold writer_write in Ew. destruct (L =? 0); [inversion Ew; subst; exact Hc|].
+    rewrite Hc in Ew. destruct (w_fin (c_w c)); inversion Ew; subst; auto. }
+  destruct out; cbn; try (repeat split; auto; fail).
+  destruct (c_att c && _); cbn; repeat split; auto.
+Qed.
+
+Lemma unk_write_if_open c d :
+  let c' := fst (write_if_open H c d) in
+  c_unk c' = c_unk c /\ c_verified c' = c_verified c /\ c_att c' = c_att c /\ c_has_w c' = c_has_w c /\
+  (w_closed (c_w c) = true -> w_closed (c_w c') = true).
+Proof.
+  unfold write_if_open. destruct d; [repeat split; auto|].
+  destruct (c_has_w c && _); [apply unk_cl_write|repeat split; auto].
+Qed.
+
+Lemma unk_set_length l c :
+  let c' := fst (set_length l c) in
+  c_unk c' = c_unk c /\ c_verified c' = c_verified c /\ c_att c' = c_att c /\ c_has_w c' = c_has_w c /\ c_w c' = c_w c.
+Proof. unfold set_length. destruct l, (c_len c); cbn; repeat split; auto; destruct (_ && _); repeat split. Qed.
+
+Definition keeps (c c' : client) : Prop :=
+  c_unk c' = c_unk c /\ c_verified c' = c_verified c /\ (Mw c -> Mw c') /\
+  (c_att c = false -> c_att c' = false /\ c_len c' = c_len c).
+Lemma keeps_refl c : keeps c c.
+Proof. unfold keeps. auto. Qed.
+
+Lemma keeps_data_received c d : keeps c (fst (data_received H json_loads c d)).
+Proof.
+  unfold data_received.
+  destruct (negb (c_open c)); cbn [fst].
+  { destruct (c_att c && _) eqn:E; [|apply keeps_refl]. unfold keeps, Mw. cbn. repeat split; auto. }
+  destruct (c_att c) eqn:Ea; cbn [negb fst].
+  2:{ unfold keeps. cbn. repeat split; auto. intro Hm. apply Mw_close. exact Hm. }
+  (* a download is attached: only unk / verified / Mw matter *)
+  assert (Hw : forall x dd, c_att x = true -> keeps x (fst (cl_write H x dd))).
+  { intros x dd Hax. destruct (unk_cl_write x dd) as (A & B & C & D & E). unfold keeps, Mw. rewrite A, B, D.
+    split; [reflexivity|]. split; [reflexivity|]. split; [intros [Hh|Hc]; auto|]. intro; congruence. }
+  assert (Hwo : forall x dd, c_att x = true -> keeps x (fst (write_if_open H x dd))).
+  { intros x dd Hax. unfold write_if_open. destruct dd; [apply keeps_refl|]. destruct (c_has_w x && _); [apply Hw; exact Hax|apply keeps_refl]. }
+  assert (Htr : forall x y z, keeps x y -> keeps y z -> c_att x = true -> c_att y = true -> keeps x z).
+  { intros x y z (A1 & A2 & A3 & A4) (B1 & B2 & B3 & B4) Hx Hy. unfold keeps. repeat split; try congruence; auto. }
+  assert (Hpp : keeps c (fst (parse_path H json_loads c d))).
+  { unfold parse_path.
+    assert (Hnil : keeps c (set_buf [] c)) by (unfold keeps, Mw; cbn; repeat split; auto; congruence).
+    destruct (parse_prefix json_loads (c_buf c ++ d)) as [| |r n]; cbn [fst]; [|apply keeps_refl|].
+    - destruct (negb (fut_done (c_fut c))).
+      + destruct (_ >? _); cbn [fst]; unfold keeps; cbn; repeat split; auto; try congruence.
+        intro Hm. apply (Mw_close (set_buf (c_buf c ++ d) c)). exact Hm.
+      + eapply Htr; [exact Hnil|apply Hwo; exact Ea|exact Ea|exact Ea].
+    - assert (Hdel : forall c1, keeps c c1 -> c_att c1 = true ->
+         keeps c (fst (match c_fut c1 with
+                  | FutPending => write_if_open H (set_delivered (S (c_delivered c1)) (set_fut (FutResult r) c1))
+                                    (skipn n (c_buf c ++ d))
+                  | _ => (c1, true) end))).
+      { intros c1 Hk Ha1. destruct (c_fut c1); cbn [fst]; try exact Hk.
+        eapply Htr; [|apply Hwo; exact Ha1|exact Ea|exact Ha1].
+        eapply Htr; [exact Hk| |exact Ea|exact Ha1]. unfold keeps, Mw. cbn. repeat split; auto; congruence. }
+      destruct (if c_att (set_buf [] c) then r_blob r else BrAbsent) as [| |h l]; try (apply Hdel; [exact Hnil|exact Ea]).
+      destruct (match h with Some h' => bytes_eqb h' (c_hash (set_buf [] c)) | None => false end); [|exact Hnil].
+      destruct (set_length l (set_buf [] c)) as [c1 raised] eqn:Esl.
+      destruct (unk_set_length l (set_buf [] c)) as (A & B & C & D & E). rewrite Esl in A, B, C, D, E. cbn [fst] in A, B, C, D, E.
+      assert (Hk1 : keeps c c1).
+      { unfold keeps, Mw. rewrite A, B, D, E. cbn. repeat split; auto; congruence. }
+      assert (Ha1 : c_att c1 = true) by (rewrite C; exact Ea).
+      destruct raised; cbn [fst]; [exact Hk1|apply Hdel; assumption]. }
+  destruct (_ || _); [|exact Hpp].
+  destruct (negb (c_has_w c)); cbn [fst]; [apply keeps_refl|].
+  destruct (negb (w_closed (c_w c))); [apply Hw; exact Ea|exact Hpp].
+Qed.
+
+Lemma unk_finish res c : c_unk (finish res c) = c_unk c.
+Proof. unfold finish. repeat match goal with |- context[if ?b then _ else _] => destruct b end; reflexivity. Qed.
+Lemma unk_run_callbacks c : c_unk (run_callbacks c) = c_unk c.
+Proof. unfold run_callbacks. destruct (w_fin _), (c_verified c); reflexivity. Qed.
+Lemma unk_co_await_fin c : c_unk (co_await_fin c) = c_unk c.
+Proof.
+  unfold co_await_fin. destruct (w_fin (c_w c)); try reflexivity; rewrite unk_finish; try reflexivity.
+  apply unk_run_callbacks.
+Qed.
+Lemma unk_co_step c : c_unk (co_step c) = c_unk c.
+Proof.
+  unfold co_step. destruct (c_phase c); try reflexivity; [|apply unk_co_await_fin].
+  destruct (c_fut c); try reflexivity; try (rewrite unk_finish; reflexivity).
+  destruct (c_closed_ev c); [rewrite unk_finish; reflexivity|].
+  match goal with |- context[if ?b then _ else _] => destruct b end;
+    [rewrite unk_co_await_fin; reflexivity|rewrite unk_finish; reflexivity].
+Qed.
+Lemma unk_drain c : c_unk (drain c) = c_unk c.
+Proof.
+  unfold drain. destruct (c_lost _).
+  - rewrite unk_co_step, unk_run_callbacks. cbn. rewrite unk_co_step, unk_run_callbacks. reflexivity.
+  - rewrite unk_co_step, unk_run_callbacks. reflexivity.
+Qed.
+Lemma unk_fire c : c_unk (fire_timeouts c) = c_unk c.
+Proof.
+  unfold fire_timeouts. destruct (c_phase c); try reflexivity; destruct (_ <=? _); try reflexivity;
+    try (destruct (c_fut c); try reflexivity); rewrite unk_finish; reflexivity.
+Qed.
+
+Lemma G_finish_close res x : Mw x -> G (finish res (close x)).
+Proof.
+  intro Hm. destruct (Mw_close x Hm) as [Hm' Hcl].
+  destruct (finish_facts res (close x) (or_introl Hcl)) as (P & A & U & V & _ & F & _).
+  split; [apply Mw_finish; exact Hm'|].
+  intros Hu _. rewrite A. split; [reflexivity|]. intro Hv. apply F; congruence.
+Qed.
+
+Lemma G_notfailed c : Mw c -> ~ failed (c_phase c) -> G c.
+Proof. intros Hm Hn. split; [exact Hm|]. intros _ Hf. contradiction. Qed.
+
+Lemma G_run_callbacks c : G c -> G (run_callbacks c).
+Proof.
+  intros [Hm Hf]. unfold run_callbacks.
+  destruct (w_fin (c_w c)); try (split; assumption).
+  destruct (c_verified c) eqn:Ev; [split; assumption|].
+  split; [exact Hm|]. intros Hu Hfl. destruct (Hf Hu Hfl) as [A B]. split; [exact A|]. cbn. discriminate.
+Qed.
+
+Lemma Mw_run_callbacks c : Mw c -> Mw (run_callbacks c).
+Proof. unfold Mw, run_callbacks. destruct (w_fin (c_w c)), (c_verified c); auto. Qed.
+
+Lemma G_close c : G c -> G (close c).
+Proof.
+  intros [Hm Hf]. split; [apply Mw_close; exact Hm|].
+  intros Hu Hfl. destruct (Hf Hu Hfl) as [A B]. split; [reflexivity|exact B].
+Qed.
+
+Lemma G_co_await_fin c : G c -> ~ failed (c_phase c) -> G (co_await_fin c).
+Proof.
+  intros [Hm Hf] Hn. unfold co_await_fin.
+  destruct (w_fin (c_w c)); try (split; assumption); try (apply G_finish_close; exact Hm).
+  apply G_notfailed; [apply Mw_finish, Mw_run_callbacks; exact Hm|].
+  destruct (proj_finish (DlOk (c_received c)) (run_callbacks c)) as (P & _). rewrite P. cbn. auto.
+Qed.
+
+Lemma G_co_step c : G c -> G (co_step c).
+Proof.
+  intros Hg. pose proof Hg as [Hm Hf]. unfold co_step.
+  destruct (c_phase c) eqn:Ep; try exact Hg.
+  - destruct (c_fut c); try exact Hg; try (apply G_finish_close; exact Hm).
+    + destruct (c_closed_ev c); [apply G_finish_close; exact Hm|].
+      match goal with |- context[if ?b then _ else _] => destruct b end; [|apply G_finish_close; exact Hm].
+      apply G_co_await_fin; [apply G_notfailed; [exact Hm|cbn; auto]|cbn; auto].
+    + apply G_notfailed; [apply Mw_finish; exact Hm|].
+      destruct (proj_finish DlOSError c) as (P & _). rewrite P. cbn. auto.
+  - apply G_co_await_fin; [exact Hg|rewrite Ep; cbn; auto].
+Qed.
+
+Lemma G_drain c : G c -> G (drain c).
+Proof.
+  intro Hg. unfold drain.
+  assert (H1 : G (co_step (run_callbacks c))) by (apply G_co_step, G_run_callbacks; exact Hg).
+  destruct (c_lost _); [|exact H1].
+  apply G_co_step, G_run_callbacks, G_close.
+  destruct H1 as [Hm Hf]. split; [exact Hm|exact Hf].
+Qed.
+
+Lemma G_fire_timeouts c : G c -> G (fire_timeouts c).
+Proof.
+  intros Hg. pose proof Hg as [Hm Hf]. unfold fire_timeouts.
+  destruct (c_phase c); try exact Hg; destruct (_ <=? _); try exact Hg.
+  - destruct (c_fut c); try exact Hg. apply G_finish_close. exact Hm.
+  - apply G_finish_close. unfold Mw in *. cbn. destruct Hm; auto.
+Qed.
+
+Lemma G_keeps c c' : keeps c c' -> c_phase c' = c_phase c -> G c -> G c'.
+Proof.
+  intros (A & B & C & D) Hp [Hm Hf]. split; [apply C; exact Hm|].
+  unfold Forgot. rewrite A, B, Hp. intros Hu Hfl. destruct (Hf Hu Hfl) as [Ha Hl].
+  destruct (D Ha) as [Ha' Hl']. rewrite Hl'. auto.
+Qed.
+
+Lemma G_step c e : G c -> G (step H json_loads c e).
+Proof.
+  intro Hg. unfold step. destruct e; cbn [step_with].
+  - destruct (c_open c); [|exact Hg].
+    pose proof (keeps_data_received c d) as Hk. pose proof (frame_data_received c d) as (Fp & _).
+    destruct (data_received H json_loads c d) as [c1 raised]. cbn [fst] in *.
+    assert (G c1) by (eapply G_keeps; eassumption).
+    destruct raised; [|assumption]. eapply G_keeps; [| |eassumption]; [unfold keeps, Mw; cbn; auto|reflexivity].
+  - pose proof (keeps_data_received c d) as Hk. pose proof (frame_data_received c d) as (Fp & _).
+    destruct (data_received H json_loads c d) as [c1 raised]. cbn [fst] in *.
+    assert (G c1) by (eapply G_keeps; eassumption).
+    destruct raised; [|assumption]. eapply G_keeps; [| |eassumption]; [unfold keeps, Mw; cbn; auto|reflexivity].
+  - apply G_drain. exact Hg.
+  - apply G_drain, G_fire_timeouts. eapply G_keeps; [| |apply G_drain; exact Hg]; [unfold keeps, Mw; cbn; auto|reflexivity].
+  - destruct (c_open c); [|exact Hg]. eapply G_keeps; [| |exact Hg]; [unfold keeps, Mw; cbn; auto|reflexivity].
+Qed.
+
+Lemma G_run : forall evs c, G c -> G (run H json_loads c evs).
+Proof. induction evs as [|e evs IH]; intros c Hg; [exact Hg|]. unfold run in *. cbn [fold_left]. apply IH, G_step, Hg. Qed.
+
+(* THE theorem for fix 1ef0969: a blob requested with an unknown length; whatever length a peer announces and whatever
+   happens afterwards - once that download has ended "closed" or "cancelled" without the blob being verified, the
+   blob's length is unknown again ... *)
+Theorem peer_learned_length_forgotten c0 hash evs :
+  let c := run H json_loads (request hash None c0) evs in
+  failed (c_phase c) -> c_verified c = None -> c_len c = None /\ c_att c = false.
+Proof.
+  intros c Hf Hv.
+  assert (Hg : G c).
+  { apply G_run. unfold request. destruct (c_open c0); apply G_notfailed; unfold Mw; cbn; auto. }
+  destruct Hg as [_ Hfg].
+  assert (Hu : c_unk c = true).
+  { assert (Hun : forall evs x, c_unk (run H json_loads x evs) = c_unk x).
+    { induction evs0 as [|e evs0 IH]; intro x; [reflexivity|]. unfold run in *. cbn [fold_left]. rewrite IH.
+      clear. unfold step. destruct e; cbn [step_with].
+      - destruct (c_open x); [|reflexivity]. pose proof (keeps_data_received x d) as (A & _).
+        destruct (data_received H json_loads x d) as [c1 []]; cbn in *; exact A.
+      - pose proof (keeps_data_received x d) as (A & _).
+        destruct (data_received H json_loads x d) as [c1 []]; cbn in *; exact A.
+      - apply unk_drain.
+      - rewrite unk_drain, unk_fire. cbn. apply unk_drain.
+      - destruct (c_open x); reflexivity. }
+    unfold c. rewrite Hun. unfold request. destruct (c_open c0); reflexivity. }
+  destruct (Hfg Hu Hf) as [A B]. split; [apply B; exact Hv|exact A].
+Qed.
+
+(* ... so that the next download of the same blob is not refused for its length: with no known length the client's
+   checks do not look at the announced length at all *)
+Theorem retry_not_refused_for_length hash n r :
+  acceptable hash (Some n) r = true -> acceptable hash None r = true.
+Proof.
+  intro Ha. apply acceptable_sound in Ha. destruct Ha as (Hav & Hp & l & Hb & _).
+  unfold acceptable. rewrite Hb, Hp. cbn. destruct Hav as [-> | ->]; cbn; rewrite ?bytes_eqb_refl; reflexivity.
 Qed.
 
 End Client.
